@@ -20,6 +20,9 @@ def obligations(tier):
         for op in range(15):
             obs.append(dict(name=f"step[case{case},op{op}]", func="step", pre=f"case == {case} and op == {op}", timeout=T,
                             bounds="presence bits x 4 rotations x reversal x values <=1 char"))
+    for ci in range(4):
+        obs.append(dict(name=f"all_props[{['SMSimfile','SSCSimfile','SSCChart','SMChart'][ci]}]", func="all_props", pre=f"ci == {ci}", timeout=T,
+                        bounds="every known-property attribute of the class (found by introspection, symbolic index): attribute <-> upper-case key, other keys untouched"))
     for op in range(14):
         obs.append(dict(name=f"smchart_step[op{op}]", func="smchart_step", pre=f"op == {op}", timeout=T, bounds="field index symbolic, value <=2, one symbolic field"))
     return obs
